@@ -294,11 +294,12 @@ SAMPLED_FMTS = ["fasta2", "fastq", "bed3", "bed6", "bdg", "narrowpeak", "vcf", "
 def tasks(tier, seed):
     out = []
     if tier == "quick":
+        # (sampled files first: they must not be the part a time budget cuts off)
+        for i, fmt in enumerate(SAMPLED_FMTS):
+            out.append(("task_sampled", dict(fmt=fmt, n=60, seed=seed * 1000 + i, max_records=12, W=12)))
         for fmt in CORE_FMTS:
             for off in range(4):
                 out.append(("task_core", dict(fmt=fmt, widths=[1, 2], max_records=3, stride=8, offset=off)))
-        for i, fmt in enumerate(SAMPLED_FMTS):
-            out.append(("task_sampled", dict(fmt=fmt, n=60, seed=seed * 1000 + i, max_records=12, W=12)))
     else:
         for fmt in CORE_FMTS:
             for off in range(16):
